@@ -49,6 +49,21 @@ def nat_gen(ctx: Ctx, bodies: list[dict], tag: str) -> list[dict]:
     return json.loads(outp.read_text())
 
 
+def algos_env(ctx: Ctx, env: dict) -> dict:
+    """env + VERIF_ALGOS: the algorithm keys the code under test registers (data, read off the
+    live dictionary by the probe)."""
+    if "VERIF_ALGOS" in env:
+        return env
+    out = calls.execute(ctx, [{"op": "algo.list"}], "algolist")[0]["out"]
+    if out["k"] != "ok":
+        raise MachineryError(f"cannot list algorithms: {out}")
+    p = ctx.wd / "algos.json"
+    p.write_text(json.dumps({"de": out["de"], "nat": out["nat"]}))
+    env = dict(env)
+    env["VERIF_ALGOS"] = str(p)
+    return env
+
+
 def national_valid_ibans(ctx: Ctx, table: dict, rng: random.Random, per: int, tag: str) -> list[str]:
     """IBANs of the 22 countries whose national check digits are right (reference digits from the
     specification): the population real-world IBANs come from."""
@@ -81,7 +96,7 @@ def events_for(bban_cp: list[int], cc: str, rng: random.Random, ops: list, full:
 
 
 def run(ctx: Ctx) -> dict:
-    env = ctx.frozen(banks=True)
+    env = algos_env(ctx, ctx.frozen(banks=True))
     if ctx.replay:
         calls.replay(ctx, "TraceNational", env, None, keyfn)
         return {}
